@@ -16,7 +16,10 @@ RULE = ("random Hypergraph instances: 2-9 nodes whose labels come from one unive
         "-3.0..10.0 incl. whole-number floats, floats one ulp apart, 5e-324, 1e300, negative ones; 9%), ints mixed with floats "
         "(9%), numeric labels that LOOK like 0..N-1 (minimum 0 and maximum N-1, or all inside [0, N), or the maximum only) but "
         "hold a non-integer (13%; ints next to floats or all floats), integers beyond 2^53 / 2^63 / 2^64 next to small and "
-        "negative ones (9%); 15% of the cases hand every label over as a numpy scalar; every call gets a NEW equal label object; "
+        "negative ones (9%), numbers handed over as numpy scalars of EVERY width (int8..int64, uint8..uint64, float16..float64, Python "
+        "objects in between): neighbouring integers beyond 2^53 next to a float, unsigned 64-bit ids next to negative ones, ids that "
+        "fit an int64 whose hyperedges hold np.uint64 next to np.int64 scalars (14%); 24% of the other cases hand every label over "
+        "as a numpy scalar (default width or every width); every call gets a NEW equal label object; "
         "inserted in random order, built by add_node/add_edge calls (tuple or list hyperedges) or by the constructor, 0-2 isolated "
         "nodes, 1-10 distinct hyperedges of size 1-5 (every order 0..max+1 queried, present or absent; order as int or numpy "
         "integer, flags as bool / numpy bool / 0-1), weighted 45% with weights of one of three classes: k/4 > 0 floats, small "
@@ -30,7 +33,11 @@ RULE = ("random Hypergraph instances: 2-9 nodes whose labels come from one unive
         "copy; temporal: swap a record within its time, move it to another time, interleave records of an old time, remove "
         "a node, drop a whole time) and after every block all routines are requested and compared again; after every round "
         "the returned dicts and matrices are overwritten in place and the hypergraph and one routine are read again; uniform "
-        "hypergraphs on 0..N-1 for the tensor; random TemporalHypergraph records over sparse times (up to 2^64+1); "
+        "hypergraphs on 0..N-1 for the tensor, half of them WEIGHTED (weights of the three classes, set_weight / accumulation in "
+        "their histories), built by the constructor or by calls; 25-30% of the static / temporal cases insert a hyperedge / record a "
+        "second time in another node order; the *_all_orders helpers with every flag combination, compute_multiorder_laplacian "
+        "without degree normalisation; random TemporalHypergraph records over sparse times (up to 2^64+1), built by add_edge "
+        "calls, the constructor (pairs or two lists) or add_edges; "
         "hye_list_to_binary_incidence called directly on index hyperedges (tuples, lists, frozensets, numpy arrays) with repeated "
         "nodes and absent / larger / too small shapes; fixed cases: 256 and 300 hyperedges sharing two nodes (adjacency), two "
         "hyperedges sharing 256 / 300 nodes (dual), and one small hypergraph per label type / weight class (bool labels only "
@@ -50,7 +57,14 @@ ASSUMPTIONS = ["hyperedges are non-empty duplicate-free node tuples, distinct as
                "products are exact and every routine is compared with the model; otherwise the routines that multiply two "
                "weights (weighted per-order adjacency / Laplacian, about which the property says nothing) are run and checked "
                "for shape and mapping only, all others are compared exactly",
-               "adjacency_tensor: uniform hypergraph whose nodes are exactly 0..N-1 (ints or numpy ints, as the routine demands)"]
+               "adjacency_tensor: uniform hypergraph whose nodes are exactly 0..N-1 (ints or numpy ints, as the routine demands); "
+               "weighted or not - the tensor is the 0/1 indicator of the hyperedges either way (the routine's docstring)",
+               "numpy scalars as labels: a value is handed over in a numpy type only if that type holds it exactly; numpy compares "
+               "an integer scalar with a float scalar in binary64, so no float label lies within rounding distance of an integer "
+               "label beyond 2^53 when both are numpy scalars; whole numbers may come back from the mapping as floats of equal value "
+               "(numpy makes float64 of uint64 next to signed integers)",
+               "compute_multiorder_laplacian(sigmas, order_weighted=False, degree_weighted=False) is read as the sum of sigma_d "
+               "times the order-d Laplacian (its code; compared on exact weights only)"]
 TRUSTED = ["sklearn LabelEncoder: classes_ = sorted distinct labels, transform = position in classes_ (validated on every case)",
            "scipy.sparse products/sums are exact on the generated dyadic inputs; numpy int64 does not overflow on them",
            "itertools.permutations yields exactly the orderings of its argument"]
@@ -78,8 +92,19 @@ MIX_UNIVERSE = sorted([_mix_typed(k) for k in GRID] + [0.1, 1 / 3, 2 ** 40, 2.0 
 BIG_UNIVERSE = sorted(list(range(0, 24)) + [2 ** 31, 2 ** 32 + 1, 2 ** 53, 2 ** 53 + 1, 2 ** 62, 2 ** 63 - 5, 2 ** 63 - 1, 2 ** 63, 2 ** 63 + 1,
                                             2 ** 64 - 1, 2 ** 64, 2 ** 64 + 3, 2 ** 70, 2 ** 70 + 1,
                                             -1, -5, -(2 ** 31) - 1, -(2 ** 53) - 1, -(2 ** 63), -(2 ** 63) - 1, -(2 ** 70)])
-RANK = {"str": {x: i for i, x in enumerate(STR_UNIVERSE)}, "float": {x: i for i, x in enumerate(FLOAT_UNIVERSE)},
+# numbers that are handed over as numpy scalars of every width: small ints, non-integer floats, clusters of neighbouring
+# integers beyond 2**53 (int64 / uint64 range and beyond); no float lies within rounding distance of a large integer and
+# no float equals an int (numpy compares an integer scalar with a float scalar in binary64)
+NPMIX_SMALL = list(range(-3, 13)) + [100, 127, 128, 255, 256, -128, -129, 32767, 32768, 65535, 65536, 2 ** 31 - 1, 2 ** 31, 2 ** 32 - 1, 2 ** 32]
+NPMIX_FLOATS = [0.5, 0.25, 1.5, 2.75, -2.25, -0.5, 7.5, 0.1, 1 / 3, 1e300, -1e300, 5e-324, 2.0 ** 40 + 0.5, 65504.5, 3.0e38, 1e-8]
+NPMIX_BIG = sorted([2 ** 53 + 1, 2 ** 53 + 2, 2 ** 53 + 3, 2 ** 53 + 5, 2 ** 60 + 1, 2 ** 60 + 3, 2 ** 62 + 1, 2 ** 63 - 3, 2 ** 63 - 1, 2 ** 63,
+                    2 ** 63 + 1, 2 ** 63 + 3, 2 ** 64 - 3, 2 ** 64 - 1, 2 ** 64 + 1, 2 ** 70 + 1,
+                    -(2 ** 53) - 1, -(2 ** 53) - 3, -(2 ** 60) - 1, -(2 ** 63) + 1, -(2 ** 63), -(2 ** 63) - 1])
+NPMIX_UNIVERSE = sorted(NPMIX_SMALL + NPMIX_FLOATS + NPMIX_BIG)
+assert len(set(NPMIX_UNIVERSE)) == len(NPMIX_UNIVERSE)
+RANK = {"npmix": {x: i for i, x in enumerate(NPMIX_UNIVERSE)}, "str": {x: i for i, x in enumerate(STR_UNIVERSE)}, "float": {x: i for i, x in enumerate(FLOAT_UNIVERSE)},
         "mix": {x: i for i, x in enumerate(MIX_UNIVERSE)}, "big": {x: i for i, x in enumerate(BIG_UNIVERSE)}}
+RANK["npi64"] = RANK["npmix"]
 assert all(len(RANK[k]) == len(u) for k, u in (("float", FLOAT_UNIVERSE), ("mix", MIX_UNIVERSE), ("big", BIG_UNIVERSE)))
 
 
@@ -170,6 +195,10 @@ def universe(kind, n):
         return list(MIX_UNIVERSE)
     if kind == "big":
         return list(BIG_UNIVERSE)
+    if kind == "npmix":
+        return list(NPMIX_UNIVERSE)
+    if kind == "npi64":                                   # the integers of that universe that an int64 holds
+        return [x for x in NPMIX_UNIVERSE if isinstance(x, int) and -2 ** 63 <= x < 2 ** 63]
     if kind in ("near", "nearf"):
         return [near_typed(k, kind == "nearf") for k in range(0, 4 * (n + 3) + 1)]
     if kind == "bool":
@@ -197,9 +226,40 @@ def near_labels(rng, n, allfloat):
     return [near_typed(k, allfloat) for k in ks]
 
 
+def npmix_labels(rng, n):
+    """labels for the numpy-scalar universe: neighbouring integers beyond 2**53 next to a float / unsigned 64-bit integers
+    next to negative ones (numpy makes float64 of both) / large integers alone / small numbers of every width"""
+    r = rng.random()
+    small = list(NPMIX_SMALL)
+    if r < 0.45:
+        k = rng.randint(1, max(1, min(3, n - 1)))
+        i = rng.randrange(len(NPMIX_BIG))
+        out = (NPMIX_BIG + NPMIX_BIG)[i:i + k] if rng.random() < 0.7 else rng.sample(NPMIX_BIG, k)
+        out += rng.sample(NPMIX_FLOATS, min(n - len(out), rng.randint(1, 2)))
+    elif r < 0.65:
+        out = rng.sample([x for x in NPMIX_BIG if 2 ** 63 <= x < 2 ** 64], rng.randint(1, min(2, n - 1)))
+        out += rng.sample([x for x in NPMIX_UNIVERSE if isinstance(x, int) and x < 0], 1)
+    elif r < 0.8:
+        out = rng.sample(NPMIX_BIG, min(n, rng.randint(1, 4)))
+    else:
+        out = rng.sample(NPMIX_FLOATS, min(n, rng.randint(0, 3)))
+    out = out[:n]
+    out += rng.sample([x for x in small if x not in out], n - len(out))
+    return out
+
+
 def gen_labels(rng, n):
     r = rng.random()
-    if r < 0.30:
+    if r < 0.09:
+        kind = "npmix"
+        labels = npmix_labels(rng, n)
+    elif r < 0.14:
+        # 64-bit ids beyond 2**53 that all fit an int64 (the node objects are signed; hyperedges hold unsigned ones too)
+        kind = "npi64"
+        big = [x for x in NPMIX_BIG if -2 ** 63 <= x < 2 ** 63]
+        labels = rng.sample(big, min(n - 1, rng.randint(1, 3)))
+        labels += rng.sample(NPMIX_SMALL, n - len(labels))
+    elif r < 0.30:
         kind = "int"
         labels = rng.sample(universe(kind, n), n) if rng.random() < 0.6 else [10 * (i + 1) for i in range(n)]
     elif r < 0.38:
@@ -227,23 +287,62 @@ def gen_labels(rng, n):
     return kind, labels
 
 
-NP_KINDS = ("int", "neg", "str", "range", "float", "mix", "near", "nearf")
+NP_KINDS = ("int", "neg", "str", "range", "float", "mix", "near", "nearf", "big", "npmix", "npi64")
+NP_INTS = ("int8", "int16", "int32", "int64", "uint8", "uint16", "uint32", "uint64")
+NP_FLOATS = ("float16", "float32", "float64")
 
 
-def fresh(x, npm=False):
+def np_mode(rng, kind):
+    """how a case hands its labels (and weights) over: False = Python objects, True = the numpy scalar of the default
+    width (int64 / float64 / str_), "w" = numpy scalars of EVERY width that holds the value exactly (int8..int64,
+    uint8..uint64, float16..float64, chosen per use), Python objects in between, "ui" = np.int64 / np.float64 nodes whose
+    hyperedges hold np.uint64 next to np.int64 scalars"""
+    r = rng.random()
+    if kind == "npmix":
+        return "w" if r < 0.75 else "ui"
+    if kind == "npi64":
+        return "ui" if r < 0.7 else "w"
+    if kind not in NP_KINDS:
+        return False
+    if r >= 0.24 and kind in ("big", "int", "range", "mix"):
+        return "ui" if r < 0.3 else False                 # unsigned and signed 64-bit scalars inside one hyperedge
+    return "w" if r < 0.12 else True if r < 0.24 else False
+
+
+def fresh(x, npm=False, kind=None, salt=0):
     """a NEW object equal to the label `x` (labels are objects: small ints and literals are shared, everything else is
-    rebuilt for every call); `npm`: as the numpy scalar of its type where one exists"""
+    rebuilt for every call); `npm`: as a numpy scalar of its type where one exists (True: default width, "w": any width
+    that holds the value exactly, or the Python object, chosen by a checksum of the value and `salt`). Under numpy's
+    comparison an integer scalar beyond 2**53 EQUALS the neighbouring float (np.int64(2**53+1) == np.float64(2.0**53)),
+    so in the universe `mix`, which holds both, numbers of that size stay Python objects"""
     import numpy as np
     if isinstance(x, bool):
         return np.bool_(x) if npm else x
     if isinstance(x, int):
         v = int(str(x))
-        return np.int64(v) if npm and -2 ** 63 <= v < 2 ** 63 else v
+        if not npm or (kind == "mix" and abs(v) >= 2 ** 53):
+            return v
+        if npm == "w":
+            cand = [t for t in NP_INTS if np.iinfo(t).min <= v <= np.iinfo(t).max]
+            c = crc("w", v, salt) % (len(cand) + 1)
+            return getattr(np, cand[c])(v) if c < len(cand) else v
+        return np.int64(v) if -2 ** 63 <= v < 2 ** 63 else np.uint64(v) if 0 <= v < 2 ** 64 else v
     if isinstance(x, float):
         v = float.fromhex(x.hex())
-        return np.float64(v) if npm else v
+        if not npm or (kind == "mix" and abs(v) >= 2.0 ** 53):
+            return v
+        if npm == "w":
+            with warnings.catch_warnings():
+                warnings.simplefilter("ignore")
+                with np.errstate(all="ignore"):
+                    cand = [t for t in NP_FLOATS if float(getattr(np, t)(v)) == v]
+            c = crc("w", v.hex(), salt) % (len(cand) + 1)
+            return getattr(np, cand[c])(v) if c < len(cand) else v
+        return np.float64(v)
     if isinstance(x, str):
         v = "".join(list(x)) if len(x) > 1 else x
+        if npm == "w":
+            return np.str_(v) if crc("w", v, salt) % 2 else v
         return np.str_(v) if npm else v
     return x
 
@@ -519,8 +618,13 @@ def gen_static(rng, with_history=None):
     rng.shuffle(order)
     pre = [x for x in order if rng.random() < 0.5]      # nodes added before the hyperedges, in random order
     case = {"kind": "static", "labels": kind, "pre_nodes": pre, "nodes": order, "edges": [list(e) for e in edges],
-            "weighted": weighted, "weights": weights, "np": kind in NP_KINDS and rng.random() < 0.15,
+            "weighted": weighted, "weights": weights, "np": np_mode(rng, kind),
             "build": rng.choice(["calls", "calls", "ctor"])}
+    if rng.random() < 0.25:
+        # hyperedges that are inserted a second time (other node order): nothing changes in an unweighted hypergraph,
+        # the weight accumulates in a weighted one
+        case["dups"] = [[j, rng.randrange(1 << 16), gen_weight(rng, wmode) if weighted else None]
+                        for j in rng.sample(range(len(edges)), rng.randint(1, min(2, len(edges))))]
     if with_history if with_history is not None else rng.random() < 0.45:
         sh = Shadow(weighted, pre, edges, wmode)
         for x in order:
@@ -538,28 +642,40 @@ def gen_tensor(rng):
     edges = [list(rng.sample(e, len(e))) for e in allk[:m]]
     if rng.random() < 0.2 and n >= 3 and k < n:
         edges.append(list(range(k + 1)))                 # non-uniform: the routine must reject
-    case = {"kind": "tensor", "n": n, "edges": edges, "np": rng.random() < 0.15}
+    # the tensor is the INDICATOR of the hyperedges: half of the cases carry hyperedge weights (of every class, most of
+    # them different from 1, also 0 and negative ones), which must not show
+    weighted = rng.random() < 0.5
+    wmode = gen_wmode(rng)
+    r = rng.random()
+    case = {"kind": "tensor", "n": n, "edges": edges, "np": "w" if r < 0.12 else r < 0.24,
+            "weighted": weighted, "weights": [gen_weight(rng, wmode) for _ in edges] if weighted else [1] * len(edges),
+            "build": rng.choice(["ctor", "calls"]), "pre_nodes": [x for x in range(n) if rng.random() < 0.3]}
     if rng.random() < 0.4:
         # edits of the same object that keep the node set 0..n-1 and at least one hyperedge
-        sh = Shadow(False, range(n), edges)
+        sh = Shadow(weighted, range(n), edges, wmode)
+
+        def wt():
+            return gen_weight(rng, wmode) if weighted else None
         hist = []
         for _ in range(rng.randint(1, 2)):
             ops = []
             r = rng.random()
-            if r < 0.6 and len(sh.edges) >= 1:
+            if weighted and r < 0.3:
+                ops.append(sh.apply([rng.choice(["set_weight", "add_edge"]), list(rng.choice(list(sh.edges))), wt()]))
+            elif r < 0.6 and len(sh.edges) >= 1:
                 e = rng.choice(list(sh.edges))
                 cand = [f for f in itertools.combinations(range(n), len(e)) if f not in sh.edges]
                 if cand:
                     f = list(rng.choice(cand))
                     rng.shuffle(f)
                     ops.append(sh.apply(["remove_edge", list(e)]))
-                    ops.append(sh.apply(["add_edge", f, None]))
+                    ops.append(sh.apply(["add_edge", f, wt()]))
             elif r < 0.8 and len(sh.edges) >= 2:
                 ops.append(sh.apply(["remove_edge", list(rng.choice(list(sh.edges)))]))
             else:
                 cand = [f for kk in range(1, min(3, n) + 1) for f in itertools.combinations(range(n), kk) if f not in sh.edges]
                 if cand:
-                    ops.append(sh.apply(["add_edge", list(rng.choice(cand)), None]))
+                    ops.append(sh.apply(["add_edge", list(rng.choice(cand)), wt()]))
             if ops:
                 hist.append({"type": "tensor_edit", "ops": ops})
         case["history"] = hist
@@ -600,7 +716,12 @@ def gen_temporal(rng):
     weights = [gen_weight(rng, wmode) for _ in recs] if weighted else [1] * len(recs)
     iso = [x for x in labels if rng.random() < 0.1]
     case = {"kind": "temporal", "labels": kind, "iso": iso, "recs": [[t, list(e)] for t, e in recs], "weighted": weighted,
-            "weights": weights, "np": kind in NP_KINDS and rng.random() < 0.15}
+            "weights": weights, "np": np_mode(rng, kind), "build": rng.choice(["calls", "calls", "ctor", "batch"])}
+    if rng.random() < 0.3:
+        # contact data lists a record twice (other node order, later in the list): an unweighted temporal hypergraph keeps
+        # one copy, a weighted one accumulates the weight
+        case["dups"] = [[j, rng.randrange(1 << 16), gen_weight(rng, wmode) if weighted else None]
+                        for j in rng.sample(range(len(recs)), rng.randint(1, min(2, len(recs))))]
     if rng.random() < 0.45:
         case["history"] = gen_temporal_history(rng, kind, n, labels, weighted, recs, iso, wmode)
     return case
@@ -740,6 +861,33 @@ def zoo_cases():
     yield st("big", [[2 ** 64 + 3, 2 ** 70], [2 ** 70, 2 ** 70 + 1, 3], [-(2 ** 63) - 1, 3]], iso=[-(2 ** 70)])
     yield st("big", [[-1, 2 ** 63], [2 ** 63, 2 ** 64 - 1], [2 ** 53, 2 ** 53 + 1]])
     yield st("mix", [[2 ** 53 + 1, 0.5], [0.5, 2.0 ** 53], [-(2 ** 53) - 1, 2 ** 63 + 1, 0.5]])
+    # numpy integer scalars beyond 2**53 (ids taken from an int64 / uint64 array) next to a float label, unsigned 64-bit ids
+    # next to negative ones, numpy scalars of every width
+    b53 = 2 ** 53
+    yield st("npmix", [[b53 + 1, b53 + 2], [b53 + 2, 0.5], [b53 + 3, b53 + 1]], np_=True)
+    yield st("npmix", [[-b53 - 1, -b53 - 3, 1.5], [2 ** 60 + 1, 1.5], [2 ** 60 + 3, 2 ** 60 + 1, -b53 - 1]], iso=[7], np_=True, build="ctor")
+    yield st("npmix", [[2 ** 63 + 1, -2], [-2, 2 ** 63 + 3], [2 ** 64 - 1, 2 ** 63 + 1, 5]], np_=True)
+    yield st("npmix", [[2 ** 63 - 1, 2 ** 63], [2 ** 63, 0.25, 2 ** 64 - 3], [2 ** 64 - 1, 2 ** 63 - 1]], np_=True, build="ctor")
+    yield st("npmix", [[3, 0.5, 127], [127, 128, -129], [65536, 0.5], [2 ** 32, 3, 1.5]], iso=[255], np_="w")
+    yield st("npmix", [[b53 + 1, b53 + 2, 7.5], [b53 + 2, 2 ** 63 + 1], [2 ** 63 + 1, -1, 7.5]], np_="w")
+    yield st("big", [[2 ** 63 - 1, 2 ** 63], [2 ** 63, 2 ** 64 - 1, -5], [-(2 ** 63), 2 ** 53 + 1]], np_=True)
+    # ids of an unsigned and of a signed column inside one hyperedge (node objects all signed)
+    yield st("npmix", [[b53 + 1, 2 ** 60 + 3], [2 ** 60 + 1, b53 + 1], [b53 + 2, 2 ** 60 + 1, 5]], iso=[b53 + 1, b53 + 2, 2 ** 60 + 1, 2 ** 60 + 3, 5], np_="ui")
+    yield st("big", [[2 ** 62, 2 ** 53 + 1, -5], [2 ** 53, 2 ** 62], [2 ** 63 - 5, 2 ** 53 + 1]], np_="ui", build="ctor")
+    yield {"kind": "temporal", "labels": "npmix", "iso": [], "weighted": True, "weights": [2, 0.5, 3], "np": "ui", "fixed": "zoo",
+           "recs": [[1, [b53 + 1, b53 + 2]], [1, [b53 + 3, b53 + 2, -1]], [4, [2 ** 60 + 1, b53 + 1]]]}
+    yield {"kind": "temporal", "labels": "npmix", "iso": [], "weighted": False, "weights": [1, 1, 1, 1], "np": True, "fixed": "zoo",
+           "recs": [[1, [b53 + 1, b53 + 2]], [1, [b53 + 2, 0.5]], [4, [2 ** 63 + 1, -2]], [4, [2 ** 63 + 3, -2, 2 ** 63 + 1]]]}
+    # weighted uniform hypergraphs on 0..N-1 for the tensor (weights different from 1, 0 and negative ones included)
+    for np_ in (False, True):
+        yield {"kind": "tensor", "n": 5, "edges": [[0, 1, 2], [3, 2, 1], [0, 4, 3]], "weighted": True, "weights": [2.5, 0.5, 7],
+               "np": np_, "build": "ctor", "fixed": "zoo"}
+    yield {"kind": "tensor", "n": 4, "edges": [[0, 1], [2, 1], [3, 0]], "weighted": True, "weights": [3, 0, -2.0], "np": False,
+           "build": "calls", "pre_nodes": [3], "fixed": "zoo",
+           "history": [{"type": "tensor_edit", "ops": [["set_weight", [1, 0], 0.25]]},
+                       {"type": "tensor_edit", "ops": [["add_edge", [1, 2], 4]]}]}
+    yield {"kind": "tensor", "n": 3, "edges": [[2], [0]], "weighted": True, "weights": [1e-200, 2.0 ** 60], "np": "w",
+           "build": "calls", "pre_nodes": [], "fixed": "zoo"}
     # bool labels; numpy scalars of every kind; strings whose sorted order is not the numeric one
     yield st("bool", [[False, True], [True]])
     yield st("int", [[3, 70], [70, 5, BIG], [BIG + 1, 3]], iso=[0], np_=True)
@@ -796,7 +944,10 @@ def check_mapping(ctx, case, what, m, want_nodes):
     if ok:
         tw = {x: type(x) for x in want}
         types = set(tw.values())
-        if len(types) == 1:
+        # numpy also makes float64 of unsigned 64-bit integers next to signed ones: where labels are handed over as numpy
+        # scalars of every width whole numbers may come back as floats of equal value
+        loose = case.get("np") in ("w", "ui") or (case.get("np") and case.get("labels") in ("big", "npmix", "npi64"))
+        if len(types) == 1 and not (loose and types == {int}):
             ok = all(type(v) is tw[v] for v in vals)
         else:
             ok = all(type(v) in (int, float) for v in vals)
@@ -864,30 +1015,65 @@ def obs_matrix(ob, line, res):
 
 def presenter(case):
     """labels and weights as they are handed to the implementation: a NEW equal object per use (`fresh`), numpy scalars
-    when the case says so; hyperedges as tuples or lists"""
-    npm = bool(case.get("np"))
+    (of the default width or of every width) when the case says so; hyperedges as tuples or lists"""
+    npm = case.get("np") or False
+    kind = case.get("labels")
     import numpy as np
+    uses = [0]
 
     def lab(x):
-        return fresh(x, npm)
+        uses[0] += 1
+        return fresh(x, True if npm == "ui" else npm, kind, uses[0])
+
+    def lab_in_edge(x, i):
+        """mode "ui": ids of two columns, one unsigned and one signed - inside a hyperedge every other non-negative
+        integer is a np.uint64, everything else (and every node handed to add_node) a np.int64 / np.float64"""
+        if npm == "ui" and i % 2 == 0 and isinstance(x, int) and not isinstance(x, bool) and 0 <= x < 2 ** 64:
+            return np.uint64(int(str(x)))
+        return lab(x)
 
     def edge(e, salt=0):
         """single-edge calls take a tuple or a list; the batch calls (constructor, add_edges, remove_edges) hash their
         hyperedges, so they get tuples only (salts 1, 4, 6)"""
-        t = [lab(x) for x in e]
+        t = [lab_in_edge(x, i) for i, x in enumerate(e)]
         return t if (salt not in (1, 4, 6) and crc("edge", salt, e) % 4 == 0) else tuple(t)
 
     def w(x):
         if x is None:
             return None
         x = wnum(x)
+        if npm == "w":                                    # weights: Python numbers and numpy scalars of the default width in turn
+            uses[0] += 1                                  # (narrow widths overflow when the container accumulates weights)
+            if crc("ww", uses[0]) % 2:
+                return float.fromhex(x.hex()) if isinstance(x, float) else int(str(x))
         if npm:
             return np.float64(x) if isinstance(x, float) else np.int64(x)
         return float.fromhex(x.hex()) if isinstance(x, float) else int(str(x))
     return lab, edge, w
 
 
+def shuffled(e, seed):
+    """the hyperedge `e` in another node order (a rotation fixed by `seed`)"""
+    e = list(e)
+    k = 1 + seed % max(1, len(e) - 1) if len(e) > 1 else 0
+    return e[k:] + e[:k]
+
+
 def build_static(case):
+    h = build_static0(case)
+    lab, edge, w = presenter(case)
+    for j, seed, wt in case.get("dups", []):
+        e = shuffled(case["edges"][j], seed)
+        if case["weighted"]:
+            h.add_edge(edge(e, 12), w(wt))
+        elif seed % 2:
+            h.add_edge(edge(e, 12))
+        else:
+            h.add_edges([edge(e, 4)])
+    return h
+
+
+def build_static0(case):
     from hypergraphx import Hypergraph
     lab, edge, w = presenter(case)
     weights = [w(x) for x in case["weights"]]
@@ -1036,7 +1222,9 @@ def audit_static(ctx, case, h, ob):
     from hypergraphx.linalg import linalg as L
     kind = case["labels"]
     profile = case.get("profile", "full")
-    st, listing = guarded(lambda: (list(h.get_nodes()), [tuple(e) for e in h.get_edges()], [frac(w) for w in h.get_weights()]))
+    # labels are compared as Python values (exact comparisons; numpy compares a Python float with a float32 scalar in float32)
+    st, listing = guarded(lambda: ([plain(x) for x in h.get_nodes()], [tuple(plain(x) for x in e) for e in h.get_edges()],
+                                   [frac(w) for w in h.get_weights()]))
     if st == "exc" or len(listing[1]) != len(listing[2]):
         ctx.violation(case, "get_nodes / get_edges / get_weights of the hypergraph failed: " + str(listing)[:120])
         return "unlisted", False, 0
@@ -1180,9 +1368,12 @@ def audit_static(ctx, case, h, ob):
     # ---- per-order variants ------------------------------------------------------------------------------
     if profile == "full":
         maxd = max(len(e) for e in edges) - 1 if edges else 0
+        # the *_all_orders helpers with every combination of their flags (one combination per request round)
+        ai_keep, ai_rm, al_flag = crc(salt, "ai_keep") % 2 == 0, crc(salt, "ai_rm") % 2 == 0, crc(salt, "al_flag") % 3 == 0
+        lap_rows = {}
         if edges:
-            all_inc = guarded(L.incidence_matrices_all_orders, h, None, True, False)
-            all_lap = guarded(L.laplacian_matrices_all_orders, h)
+            all_inc = guarded(L.incidence_matrices_all_orders, h, None, flag_arg(ai_keep, "aik"), flag_arg(ai_rm, "air"))
+            all_lap = guarded(L.laplacian_matrices_all_orders, h, flag_arg(True, "alf")) if al_flag else guarded(L.laplacian_matrices_all_orders, h)
         else:
             # without any hyperedge max_order() has no value and the *_all_orders helpers raise; nothing is claimed
             all_inc = all_lap = ("skip", None)
@@ -1214,13 +1405,13 @@ def audit_static(ctx, case, h, ob):
                 ob.add(f"incord {d_} {int(keep)}", mat_str(dm[2]))
                 ob.add(f"mapord {d_} {int(keep)}", model_map_str(kind, m))
                 same_without_mapping(what, dm, L.incidence_matrix_by_order, h, d_, keep_isolated_nodes=keep)
-                if keep and all_inc[0] == "ok" and d_ in all_inc[1]:
+                if keep == ai_keep and all_inc[0] == "ok" and d_ in all_inc[1]:
                     try:
                         same = same_rows(dense(all_inc[1][d_])[2], dm[2])
                     except Exception:  # noqa: BLE001
                         same = False
                     if not same:
-                        ctx.violation(case, f"incidence_matrices_all_orders[{d_}] differs from incidence_matrix_by_order({d_})")
+                        ctx.violation(case, f"incidence_matrices_all_orders(keep_isolated_nodes={ai_keep}, return_mapping={ai_rm})[{d_}] differs from incidence_matrix_by_order({d_}, keep_isolated_nodes={keep})")
             # adjacency by order
             what = f"adjacency_matrix_by_order(order={d_})"
             res = guarded(L.adjacency_matrix_by_order, h, order_arg(d_), return_mapping=True)
@@ -1276,6 +1467,15 @@ def audit_static(ctx, case, h, ob):
                         continue
                     if exact:
                         obs_matrix(ob, f"{q} {d_}", dd)
+                    if not flag:
+                        lap_rows[d_] = dd[1][2]
+                    if flag == al_flag and all_lap[0] == "ok" and d_ in all_lap[1]:
+                        try:
+                            same = same_rows(dense(all_lap[1][d_])[2], dd[1][2])
+                        except Exception:  # noqa: BLE001
+                            same = False
+                        if not same:
+                            ctx.violation(case, f"laplacian_matrices_all_orders(weighted={al_flag})[{d_}] differs from laplacian_matrix_by_order({d_}, weighted={flag})")
                     if not weighted and not flag:
                         A_d = adjacency_definition(lab, ed)
                         want = [[d_ * deg[i] if i == j else -A_d[i][j] for j in range(N)] for i in range(N)]
@@ -1285,17 +1485,28 @@ def audit_static(ctx, case, h, ob):
                                 ctx.violation(case, what + " is not symmetric")
                             if any(sum(rows[i]) != 0 for i in range(N)):
                                 ctx.violation(case, what + " has a non-zero row sum")
-                        if all_lap[0] == "ok" and d_ in all_lap[1]:
-                            try:
-                                same = same_rows(dense(all_lap[1][d_])[2], dd[1][2])
-                            except Exception:  # noqa: BLE001
-                                same = False
-                            if not same:
-                                ctx.violation(case, f"laplacian_matrices_all_orders[{d_}] differs from laplacian_matrix_by_order({d_})")
+        # the multi-order Laplacian without degree normalisation is the sigma-weighted sum of the per-order Laplacians
+        if edges and exact and maxd >= 1 and all(d_ in lap_rows for d_ in range(1, maxd + 1)):
+            sig = [1 + crc(salt, "sigma", d_) % 3 for d_ in range(1, maxd + 1)]
+            sarg = np.array(sig) if crc(salt, "sigarr") % 2 else list(sig)
+            res = guarded(L.compute_multiorder_laplacian, h, sarg, False, False)
+            ctx.count("multiorder_laplacian")
+            if res[0] == "exc":
+                ctx.violation(case, f"compute_multiorder_laplacian(sigmas={sig}) raised {res[1]}")
+            else:
+                returned.append(res[1])
+                dd = guarded(dense, res[1])
+                want = [[sum(sg * lap_rows[d_][i][j] for d_, sg in zip(range(1, maxd + 1), sig)) for j in range(N)] for i in range(N)]
+                if dd[0] == "exc":
+                    ctx.violation(case, "compute_multiorder_laplacian: not a matrix")
+                else:
+                    expect_matrix(ctx, case, f"compute_multiorder_laplacian(sigmas={sig}, order_weighted=False, degree_weighted=False) "
+                                  "= sum of sigma_d * Laplacian of order d", dd[1], want, N, N)
 
     scribble(returned)
     # the caller owns what it was given: after overwriting all of it, the hypergraph and a new answer are what they were
-    again = guarded(lambda: (list(h.get_nodes()), [tuple(e) for e in h.get_edges()], [frac(w) for w in h.get_weights()]))
+    again = guarded(lambda: ([plain(x) for x in h.get_nodes()], [tuple(plain(x) for x in e) for e in h.get_edges()],
+                             [frac(w) for w in h.get_weights()]))
     if again[0] == "exc" or again[1] != listing:
         ctx.violation(case, f"overwriting the returned matrices / mapping dicts changed the hypergraph itself: {str(again[1])[:200]}")
     elif "inc" in keepsake:
@@ -1328,22 +1539,43 @@ def compare(ctx, drv, case, ob):
 
 def check_tensor(ctx, drv, case):
     from hypergraphx import Hypergraph
-    lab, edge, _w = presenter(case)
-    n, edges = case["n"], [edge(e, 1) for e in case["edges"]]
-    st, h = guarded(lambda: Hypergraph(edge_list=edges))
+    lab, edge, w = presenter(case)
+    n = case["n"]
+    weighted = bool(case.get("weighted"))
+    weights = [w(x) for x in case.get("weights", [1] * len(case["edges"]))]
+
+    def build():
+        if case.get("build", "ctor") == "ctor":
+            edges = [edge(e, 1) for e in case["edges"]]
+            h = Hypergraph(edge_list=edges, weighted=True, weights=weights) if weighted else Hypergraph(edge_list=edges)
+            pre = []
+        else:
+            h = Hypergraph(weighted=weighted)
+            pre = case.get("pre_nodes", [])
+        for x in pre:
+            h.add_node(lab(x))
+        if case.get("build", "ctor") != "ctor":
+            for e, wt in zip(case["edges"], weights):
+                if weighted:
+                    h.add_edge(edge(e, 2), wt)
+                else:
+                    h.add_edge(edge(e, 2))
+        for x in range(n):
+            h.add_node(lab(x))
+        return h
+    st, h = guarded(build)
     if st == "exc":
-        ctx.violation(case, "Hypergraph(edge_list) raised " + h)
+        ctx.violation(case, "building the uniform hypergraph raised " + h)
         return
-    for x in range(n):
-        h.add_node(lab(x))
     ob = Obs()
     first = {}
 
     def audit(c, hh):
         first.setdefault("edges", audit_tensor(c, case, hh, ob))
-    run_history(ctx, case, h, audit, False)
+    run_history(ctx, case, h, audit, weighted)
     hedges = first["edges"]
-    ctx.case(repr(("tensor", n, sorted(map(sorted, hedges)), case.get("history", ""))), len(hedges) >= 2, sample=case)
+    ctx.case(repr(("tensor", n, sorted(map(sorted, hedges)), weighted and case.get("weights"), case.get("history", ""))),
+             len(hedges) >= 2, sample=case)
     compare(ctx, drv, case, ob)
 
 
@@ -1353,10 +1585,16 @@ def audit_tensor(ctx, case, h, ob):
     n = case["n"]
     hedges = [tuple(e) for e in h.get_edges()]
     sizes = set(len(e) for e in hedges)
+    st, wts = guarded(lambda: [frac(x) for x in h.get_weights()])
+    if st == "exc" or len(wts) != len(hedges) or any(not isinstance(x, Fraction) for x in wts):
+        ctx.violation(case, "get_weights of the uniform hypergraph failed: " + str(wts)[:120])
+        return hedges
     ob.add("load " + hgxv.enc_list([int(x) for x in h.get_nodes()]) + " " + hgxv.enc_lists([[int(x) for x in e] for e in hedges])
-           + " " + hgxv.enc_list([1] * len(hedges)), "ok")
+           + " " + hgxv.enc_list(wts), "ok")
     res = guarded(L.adjacency_tensor, h)
     ctx.count("tensor_uniform" if len(sizes) == 1 else "tensor_nonuniform")
+    if case.get("weighted"):
+        ctx.count("tensor_weighted_nonunit" if any(x != 1 for x in wts) else "tensor_weighted_unit")
     if len(sizes) != 1:
         # the routine announces an exception for non-uniform input
         if res[0] != "exc":
@@ -1451,10 +1689,30 @@ def check_temporal(ctx, drv, case):
     weighted = case["weighted"]
 
     def build():
+        recs = [(t, e, w) for (t, e), w in zip(case["recs"], weights)]
+        dups = [(case["recs"][j][0], shuffled(case["recs"][j][1], seed), wconv(wt)) for j, seed, wt in case.get("dups", [])]
+        how = case.get("build", "calls")
+        if how != "calls" and not weighted:
+            # the whole contact list at once: through the constructor ((time, hyperedge) pairs or two lists) / add_edges
+            allr = recs + dups
+            for i, d in enumerate(dups):                  # repeated records somewhere after their first occurrence
+                allr.remove(d)
+                first = next(k for k, r in enumerate(allr) if r[0] == d[0] and ekey(r[1]) == ekey(d[1]))
+                allr.insert(first + 1 + crc("dup", i, len(allr)) % (len(allr) - first), d)
+            if how == "ctor" and len(allr) % 2:
+                th = TemporalHypergraph(edge_list=[(t, edge(e, 1)) for t, e, _ in allr])
+            elif how == "ctor":
+                th = TemporalHypergraph(edge_list=[edge(e, 1) for _, e, _ in allr], time_list=[t for t, _, _ in allr])
+            else:
+                th = TemporalHypergraph()
+                th.add_edges([edge(e, 1) for _, e, _ in allr], [t for t, _, _ in allr])
+            for x in case["iso"]:
+                th.add_node(lab(x))
+            return th
         th = TemporalHypergraph(weighted=weighted)
         for x in case["iso"]:
             th.add_node(lab(x))
-        for (t, e), w in zip(case["recs"], weights):
+        for t, e, w in recs + dups:
             if weighted:
                 th.add_edge(edge(e, 11), t, w)
             else:
@@ -1482,7 +1740,7 @@ def audit_temporal(ctx, case, th, ob):
     kind = case["labels"]
     weighted = case["weighted"]
     returned = []
-    st, listing = guarded(lambda: [(t, tuple(e), frac(th.get_weight(e, t))) for t, e in th.get_edges()])
+    st, listing = guarded(lambda: [(t, tuple(plain(x) for x in e), frac(th.get_weight(e, t))) for t, e in th.get_edges()])
     if st == "exc":
         ctx.violation(case, "get_edges / get_weight of the temporal hypergraph raised " + listing)
         return "unlisted", False
@@ -1582,6 +1840,23 @@ def audit_temporal(ctx, case, th, ob):
                 del ob.lines[n_obs:], ob.expect[n_obs:]
         except Exception as e:  # noqa: BLE001
             ctx.violation(case, "temporal_adjacency_matrices_all_orders: malformed result " + type(e).__name__)
+    # an explicit max_order (one above / one below the largest order): the orders 1..max_order, each as by order
+    mo = maxd + 1 if crc(len(recs), maxd, len(ob.lines)) % 2 else max(1, maxd - 1)
+    res = guarded(L.temporal_adjacency_matrices_all_orders, th, mo, True)
+    if res[0] == "exc":
+        ctx.violation(case, f"temporal_adjacency_matrices_all_orders(max_order={mo}) raised " + res[1])
+    else:
+        returned.append(res[1])
+        try:
+            mats, maps = res[1]
+            if sorted(mats.keys()) != list(range(1, mo + 1)):
+                ctx.violation(case, f"temporal_adjacency_matrices_all_orders(max_order={mo}): keys {sorted(mats.keys())} are not the orders 1..{mo}")
+            else:
+                n_obs = len(ob.lines)
+                per_time(f"temporal_adjacency_matrices_all_orders(max_order={mo})[{mo}]", ("ok", (mats[mo], maps[mo])), by_order=mo)
+                del ob.lines[n_obs:], ob.expect[n_obs:]
+        except Exception as e:  # noqa: BLE001
+            ctx.violation(case, f"temporal_adjacency_matrices_all_orders(max_order={mo}): malformed result " + type(e).__name__)
     multi = any(len([1 for (tt, _) in recs if tt == t]) >= 2 for t in times)
     scribble(returned)
     return repr(("temporal", sorted((t, sorted(map(repr, e)), str(w)) for (t, e), w in zip(recs, wts)))), multi and len(times) >= 2
